@@ -312,10 +312,17 @@ def check_cross(ctx, case):
         elif route == 'address_parsed':
             def build():
                 return _make_output(api, nb, address=lib.keys.Address.parse(addr_a, network=na))
+        elif route == 'address_lock_script':
+            # the address string together with the script it stands for (how provider clients build outputs)
+            def build():
+                return _make_output(api, nb, address=addr_a, lock_script=want_script)
+        elif route == 'address_public_hash':
+            def build():
+                return lib.tr.Output(VALUE, address=addr_a, public_hash=payload, script_type=kind, network=nb)
         else:
             raise Discrepancy('harness.unknown_route', route, case)
     shared = _share(share_kind, na, nb)
-    hexlike = route in ('address_obj', 'address_parsed') and _hexlike(payload)
+    hexlike = route in ('address_obj', 'address_parsed', 'address_public_hash') and _hexlike(payload)
     ok, o = _call(lambda: _observe(build()))
     if not ok:
         if hexlike:
@@ -460,8 +467,10 @@ def matrix_items():
                 continue
             for kind in TYPES:
                 p = payload_classes(PLEN[kind])[0][1]
-                for route in ('address', 'address_obj', 'address_parsed'):
+                for route in ('address', 'address_obj', 'address_parsed', 'address_lock_script', 'address_public_hash'):
                     for api in ('Output', 'add_output'):
+                        if route == 'address_public_hash' and api == 'add_output':
+                            continue
                         items.append(('cross.%s.%s' % (route, 'shared' if _share(kind, na, nb) else 'foreign'),
                                       {'kind': 'cross', 'route': route, 'api': api, 'net_a': na, 'net_b': nb,
                                        'type': kind, 'payload': p.hex()}))
@@ -523,7 +532,8 @@ def run(ctx):
         'prog': st.integers(2, 40).flatmap(lambda n: st.binary(min_size=n, max_size=n)).map(bytes.hex),
         'dir': st.sampled_from(['fwd', 'back']), 'api': st.sampled_from(['Output', 'add_output'])})
     cross = st.sampled_from(TYPES).flatmap(lambda kind: st.fixed_dictionaries({
-        'kind': st.just('cross'), 'route': st.sampled_from(['address', 'address', 'address_obj', 'address_parsed']),
+        'kind': st.just('cross'), 'route': st.sampled_from(['address', 'address', 'address_obj', 'address_parsed',
+                                                            'address_lock_script', 'address_public_hash']),
         'api': st.sampled_from(['Output', 'add_output']), 'net_a': gen.networks(), 'net_b': gen.networks(),
         'type': st.just(kind), 'payload': payload_for(kind)})).filter(lambda c: c['net_a'] != c['net_b'])
 
